@@ -55,6 +55,7 @@ type report struct {
 	Selects       []string       `json:"selects"`
 	Ranges        []string       `json:"ranges_maybe_chan"`
 	AtomicUsers   []string       `json:"sync_atomic_importers"`
+	TryLocks      []string       `json:"try_locks"`
 	RandUsers     []string       `json:"math_rand_importers"`
 	MapRanges     []string       `json:"map_ranges"`
 	MapRangesKept []string       `json:"map_ranges_left_alone,omitempty"`
@@ -111,6 +112,21 @@ func main() {
 	if err != nil {
 		fmt.Fprintln(os.Stderr, "simgen:", err)
 		os.Exit(2)
+	}
+	if len(rep.TryLocks) > 0 {
+		// a generated file in the root package of the copy switches the post-acquisition scheduling
+		// points on (see simrt.HoldPoint)
+		pkg := "main"
+		if fs, _ := filepath.Glob(filepath.Join(*dst, "*.go")); len(fs) > 0 {
+			if pf, err := parser.ParseFile(token.NewFileSet(), fs[0], nil, parser.PackageClauseOnly); err == nil {
+				pkg = pf.Name.Name
+			}
+		}
+		gen := "package " + pkg + "\n\nimport simrt \"" + simrtPath + "\"\n\nfunc init() { simrt.EnableHoldPoints() }\n"
+		if err := os.WriteFile(filepath.Join(*dst, "zz_simgen_flags.go"), []byte(gen), 0o644); err != nil {
+			fmt.Fprintln(os.Stderr, "simgen:", err)
+			os.Exit(2)
+		}
 	}
 	if len(rep.Unhandled) > 0 {
 		for _, u := range rep.Unhandled {
@@ -234,6 +250,14 @@ func instrument(path, rel, out string) error {
 			if n.(*ast.UnaryExpr).Op == token.ARROW {
 				c.hasChan = true
 			}
+		}
+		return true
+	})
+
+	// does the file try locks without blocking?
+	ast.Inspect(f, func(n ast.Node) bool {
+		if sel, ok := n.(*ast.SelectorExpr); ok && (sel.Sel.Name == "TryLock" || sel.Sel.Name == "TryRLock") {
+			rep.TryLocks = append(rep.TryLocks, c.pos(sel))
 		}
 		return true
 	})
